@@ -23,6 +23,95 @@ fn retarget(lines: &[String], from: usize, to: usize) -> Vec<String> {
     lines.iter().filter(|l| l.starts_with(&pat)).map(|l| l.replacen(&pat, &rep, 1)).collect()
 }
 
+/// "every reachable state": in every `every`-th case the queried value is also cloned or sent through
+/// bincode, and (a sample of) the same queries is repeated on the copy
+fn reached_variants(r: &mut Rng, every: usize, out: &mut [Case]) {
+    for (i, c) in out.iter_mut().enumerate() {
+        if i % every != 0 {
+            continue;
+        }
+        // the highest slot that is queried
+        let mut slot = None;
+        for l in &c.lines {
+            if let Some(rest) = l.strip_prefix("q ") {
+                if let Some(k) = rest.split(' ').next().and_then(|x| x.parse::<usize>().ok()) {
+                    if k < 9 && slot.map_or(true, |s| k > s) {
+                        slot = Some(k);
+                    }
+                }
+            }
+        }
+        let Some(s) = slot else { continue };
+        // the builder is not serialisable (and is a different type from what it builds)
+        if c.lines.iter().any(|l| l.starts_with(&format!("mk {} qvb", s))) {
+            continue;
+        }
+        let mut qs = retarget(&c.lines, s, 9);
+        if qs.is_empty() {
+            continue;
+        }
+        let keep = 80usize;
+        if qs.len() > keep {
+            let step = qs.len() / keep + 1;
+            let off = r.below(step as u64) as usize;
+            qs = qs.into_iter().skip(off).step_by(step).collect();
+        }
+        let serde = r.chance(2, 3);
+        c.l(format!("mk 9 {} {}", if serde { "serde" } else { "copy" }, s));
+        c.tag(if serde { "via=serde" } else { "via=clone" });
+        c.lines.extend(qs);
+    }
+}
+
+/// a sequence different from `v`. kinds 0..=2 change the multiset (one value, one element fewer, a trailing
+/// zero more); kinds 3..=5 keep it and exchange two unequal elements: two that differ only in their lowest
+/// bit (preferably near the end), two neighbours near the end, any two
+fn different_seq(r: &mut Rng, v: &[u128], kind: u64) -> Option<Vec<u128>> {
+    let mut o = v.to_vec();
+    match kind {
+        0 if !o.is_empty() => {
+            let p = r.below(o.len() as u64) as usize;
+            o[p] = if o[p] == 0 { 1 } else { o[p] - 1 };
+        }
+        1 if o.len() >= 2 => {
+            o.pop();
+        }
+        0..=2 => o.push(0),
+        _ => {
+            let n = o.len();
+            let lo = n.saturating_sub(if r.chance(2, 3) { 200 } else { n });
+            let mut pair = None;
+            if kind == 3 {
+                for q in (lo..n).rev() {
+                    if let Some(p) = (lo..q).rev().find(|&p| o[p] ^ 1 == o[q]) {
+                        pair = Some((p, q));
+                        break;
+                    }
+                }
+            }
+            if pair.is_none() && kind <= 4 {
+                pair = (lo + 1..n).rev().find(|&q| o[q] != o[q - 1]).map(|q| (q - 1, q));
+            }
+            if pair.is_none() {
+                for _ in 0..50 {
+                    if n < 2 {
+                        break;
+                    }
+                    let p = r.below(n as u64) as usize;
+                    let q = r.below(n as u64) as usize;
+                    if o[p] != o[q] {
+                        pair = Some((p, q));
+                        break;
+                    }
+                }
+            }
+            let (p, q) = pair?;
+            o.swap(p, q);
+        }
+    }
+    Some(o)
+}
+
 fn tree_family_cases(r: &mut Rng, t: Tier, fam: &str, ops: &[&str], extra: &[&str], n_cases: usize, out: &mut Vec<Case>) {
     let huff = fam == "hqwt" || fam == "hwt";
     for i in 0..n_cases {
@@ -65,7 +154,11 @@ fn huff_profile_cases(r: &mut Rng, t: Tier, fam: &str, ops: &[&str], extra: &[&s
         };
         // frequencies: fibonacci-like (deep), geometric, uniform, one dominant, caterpillar
         let mut freqs: Vec<usize> = vec![];
-        let style = if i % 5 == 4 { 4 } else { r.below(4) };
+        // 5..=7: text-like profiles (Zipf, steep Zipf, a staircase of groups of 2^g symbols whose weights fall
+        // by 4 per group): long codes whose deep part is *bushy*, i.e. long code words with ones in their
+        // high bits — on the narrow element types too
+        let style = if i % 5 == 4 { 4 } else if alph >= 14 && r.chance(2, 3) { 5 + r.below(3) } else { r.below(4) };
+        let ty = if style >= 5 && r.chance(1, 2) { TYS[0] } else { ty };
         // caterpillar: a chain of internal nodes, D-1 leaves hanging at every level (deep codes)
         let alph = if style == 4 {
             if fam == "hwt" { r.range(12, scale(t, 22, 28) as u64) as usize } else { 4 + 3 * r.range(6, scale(t, 10, 13) as u64) as usize }
@@ -90,6 +183,12 @@ fn huff_profile_cases(r: &mut Rng, t: Tier, fam: &str, ops: &[&str], extra: &[&s
                     } else {
                         r.range(1, 3) as usize
                     }
+                }
+                5 => 6000 / (k + 1),
+                6 => (20000.0 / ((k + 1) as f64).powf(1.5)) as usize,
+                7 => {
+                    let g = (k + 1).ilog2();
+                    (1usize << 14) >> (2 * g).min(14)
                 }
                 _ => {
                     if fam == "hwt" {
@@ -674,7 +773,68 @@ fn bvm_history_cases(r: &mut Rng, t: Tier, n_cases: usize, out: &mut Vec<Case>) 
 
 /// a history over the iterator-call letters (see `iterhist` / `fwdhist` in interp.rs): `n` next, `b` next_back,
 /// `l` len, `t..z` nth(1,2,5,64,255,256,1000), capitals nth_back, `c` count, `a` last
+/// short double-ended histories made of small steps from both ends (nth / nth_back of 1, 2, 5 mixed with
+/// single steps and the observers), for sequences of a few dozen elements
+pub fn meeting_history(r: &mut Rng, hl: usize) -> String {
+    let style = r.below(3);
+    let term = if r.chance(1, 3) { Some(*r.pick(&['#', '$', '%', '^'])) } else { None };
+    let core: String = (0..hl)
+        .map(|j| {
+            let back_phase = style == 1 && j < hl / 2 || style == 2 && j % 2 == 0;
+            match r.below(20) {
+                0 => 'l',
+                1 => 'h',
+                2 if j > hl / 2 => 'c',
+                3 if j > hl / 2 => 'a',
+                4..=8 => {
+                    if back_phase {
+                        'b'
+                    } else {
+                        'n'
+                    }
+                }
+                9..=11 => {
+                    if back_phase {
+                        'n'
+                    } else {
+                        'b'
+                    }
+                }
+                12..=15 => {
+                    let c = *r.pick(&['t', 'u', 'v', 'v']);
+                    if back_phase {
+                        c.to_ascii_uppercase()
+                    } else {
+                        c
+                    }
+                }
+                _ => {
+                    let c = *r.pick(&['t', 'u', 'v', 'w']);
+                    if back_phase {
+                        c
+                    } else {
+                        c.to_ascii_uppercase()
+                    }
+                }
+            }
+        })
+        .collect();
+    match term {
+        Some(t) => format!("{}{}", core, t),
+        None => core,
+    }
+}
+
 pub fn iter_history(r: &mut Rng, hl: usize, double_ended: bool) -> String {
+    let mut h = iter_history_core(r, hl, double_ended);
+    // every third history ends in a call that consumes the iterator itself: count / last / fold / rev().fold
+    if r.chance(1, 3) {
+        h.push(*r.pick(if double_ended { &['#', '$', '%', '^'][..] } else { &['#', '$', '%'][..] }));
+    }
+    h
+}
+
+fn iter_history_core(r: &mut Rng, hl: usize, double_ended: bool) -> String {
     let small = ['t', 'u', 'v'];
     let large = ['w', 'x', 'y', 'z', 'w', 'x', 'y', 'z', 'o', 'p', 'q'];
     let style = r.below(4);
@@ -1213,13 +1373,24 @@ pub fn cases(prop: &str, t: Tier, seed: u64) -> Vec<Case> {
             let mut c = Case::new("defaults");
             c.nontrivial = false;
             c.l("cfg 256 0 8 * u8");
-            for (k, mk) in ["mk 0 qv:u8", "mk 0 bvbits 0", "mk 0 rsq 256", "mk 0 rsq 512", "mk 0 bvnew"].iter().enumerate() {
+            c.l("mk 5 bvbits 0");
+            for (k, mk) in [
+                "mk 0 qv:u8", "mk 0 bvbits 0", "mk 0 rsq 256", "mk 0 rsq 512", "mk 0 bvnew",
+                // `Default::default()` of every structure (not necessarily what the constructor builds from an
+                // empty input) and the structures built over an empty bit vector
+                "mk 0 rsqdefault 256", "mk 0 rsqdefault 512", "mk 0 rsndefault", "mk 0 rswdefault", "mk 0 dadefault 0", "mk 0 dadefault 1",
+                "mk 0 rsn 5", "mk 0 rsw 5", "mk 0 da 0 5", "mk 0 da 1 5",
+            ]
+            .iter()
+            .enumerate()
+            {
                 let _ = k;
                 c.l(mk.to_string());
                 c.l("enc 0");
                 c.l("mk 1 serde 0");
                 c.l("eq 0 1");
                 c.l("enc 1");
+                c.l("dump 1");
             }
             out.push(c);
         }
@@ -1234,7 +1405,8 @@ pub fn cases(prop: &str, t: Tier, seed: u64) -> Vec<Case> {
                     pfs: cfg.1,
                     ty: TYS[i % 6],
                     path: "",
-                    max_len: scale(t, 700, 5000),
+                    // every third case is short, so that the two cursors meet (and cross) inside a short history
+                    max_len: if i % 3 == 1 { 48 } else { scale(t, 700, 5000) },
                     ops: &[],
                     budget: 0,
                     extra: &[],
@@ -1242,6 +1414,15 @@ pub fn cases(prop: &str, t: Tier, seed: u64) -> Vec<Case> {
                     max_symbol: if fam.starts_with('h') { Some(3000) } else { None },
                 };
                 let mut c = tree_case(r, &o);
+                if i % 3 == 1 {
+                    // the front and the back cursor approach each other through every kind of call: the last
+                    // calls before exhaustion (and the calls after it) are next / next_back / nth / nth_back /
+                    // len / size_hint / count / last in every order
+                    for _ in 0..12 {
+                        let hl = r.range(2, 40) as usize;
+                        c.l(format!("q 0 iterhist {}", meeting_history(r, hl)));
+                    }
+                }
                 c.l("q 0 len");
                 c.l("q 0 iter");
                 c.l("q 0 iter_ref");
@@ -1465,20 +1646,14 @@ pub fn cases(prop: &str, t: Tier, seed: u64) -> Vec<Case> {
                     c.lines.extend(retarget(&qs0, 0, s));
                 }
                 // a different sequence never compares equal
-                let mut other: Vec<String> = vals.split(' ').filter(|x| !x.is_empty()).map(|x| x.to_string()).collect();
-                match r.below(3) {
-                    0 if !other.is_empty() => {
-                        let p = r.below(other.len() as u64) as usize;
-                        let x: u128 = other[p].parse().unwrap();
-                        other[p] = (if x == 0 { 1 } else { x - 1 }).to_string();
+                let orig: Vec<u128> = vals.split(' ').filter(|x| !x.is_empty()).map(|x| x.parse().unwrap()).collect();
+                for (slot, kind) in [(4usize, r.below(3)), (6, 3 + r.below(3))] {
+                    if let Some(other) = different_seq(r, &orig, kind) {
+                        c.l(format!("mk {} {}:new {}", slot, fam, join(&other)));
+                        c.l(format!("eq 0 {}", slot));
+                        c.tag(format!("differs={}", kind));
                     }
-                    1 if other.len() >= 2 => {
-                        other.pop();
-                    }
-                    _ => other.push("0".into()),
                 }
-                c.l(format!("mk 4 {}:new {}", fam, other.join(" ")));
-                c.l("eq 0 4");
                 // the same numbers in a wider type
                 if tyi < 4 {
                     let wider = [TYS[0], TYS[1], TYS[2], TYS[3], TYS[5]][tyi + 1 + (r.below((4 - tyi) as u64) as usize)];
@@ -1565,6 +1740,31 @@ pub fn cases(prop: &str, t: Tier, seed: u64) -> Vec<Case> {
                     c.l("mk 10 rsw 9");
                     c.l("eq 4 10");
                 }
+                // the same number of ones, one of them moved by one position (towards a zero neighbour): at the
+                // very end, at the start, or anywhere
+                if !ones.is_empty() && ones.len() < n {
+                    let cand: Vec<usize> = ones.iter().copied().filter(|&p| (p + 1 < n && !ones.contains(&(p + 1))) || (p > 0 && !ones.contains(&(p - 1)))).collect();
+                    if !cand.is_empty() {
+                        let p = match r.below(3) {
+                            0 => *cand.last().unwrap(),
+                            1 => cand[0],
+                            _ => *r.pick(&cand),
+                        };
+                        let q = if p + 1 < n && !ones.contains(&(p + 1)) { p + 1 } else { p - 1 };
+                        let mut moved: Vec<usize> = ones.iter().copied().filter(|&x| x != p).collect();
+                        moved.push(q);
+                        moved.sort();
+                        c.l(format!("mk 11 bvbits {} {}", n, join(&moved)));
+                        c.l("eq 0 11");
+                        c.l("mk 12 rsw 11");
+                        c.l("eq 4 12");
+                        c.l("mk 13 rsn 11");
+                        c.l("eq 2 13");
+                        c.l(format!("mk 14 da {} 11", i % 2));
+                        c.l("eq 6 14");
+                        c.tag("differs=moved-one");
+                    }
+                }
                 out.push(c);
             }
             let mut tmp = vec![];
@@ -1585,6 +1785,21 @@ pub fn cases(prop: &str, t: Tier, seed: u64) -> Vec<Case> {
                 // a different sequence (one more symbol): must not compare equal
                 c.l(if vals.is_empty() { format!("mk 5 rsq {} 1", b) } else { format!("mk 5 rsq {} {} 1", b, vals) });
                 c.l("eq 0 5");
+                // the same multiset in a different order (minimal differences: one transposition), and the
+                // plain quad vectors of both
+                let orig: Vec<u128> = vals.split(' ').filter(|x| !x.is_empty()).map(|x| x.parse().unwrap()).collect();
+                c.l(format!("mk 8 qv:u8 {}", vals).trim_end().to_string());
+                for (slot, kind) in [(6usize, 3 + r.below(3)), (7, r.below(6))] {
+                    if let Some(other) = different_seq(r, &orig, kind) {
+                        if other.iter().all(|&x| x < 4) {
+                            c.l(format!("mk {} rsq {} {}", slot, b, join(&other)));
+                            c.l(format!("eq 0 {}", slot));
+                            c.l(format!("mk 9 qv:u8 {}", join(&other)));
+                            c.l("eq 8 9");
+                            c.tag(format!("differs={}", kind));
+                        }
+                    }
+                }
                 out.push(c);
             }
         }
@@ -1702,6 +1917,10 @@ pub fn cases(prop: &str, t: Tier, seed: u64) -> Vec<Case> {
             out.push(c);
         }
         _ => {}
+    }
+    // the properties quantify over every value / every reachable state: clones and deserialised copies too
+    if ["C01", "C02", "C03", "C04", "C05", "C06", "C07", "C08", "C10", "C12", "C13"].contains(&prop) {
+        reached_variants(r, 3, &mut out);
     }
     out
 }
